@@ -52,6 +52,11 @@ DELTAS = [
     # everything switched off in one step, then single switches back on (a derived "nothing enabled" shortcut must be undone)
     dict(enable_macros=False, enable_environments=False, enable_comments=False, enable_groups=False, enable_specials=False, enable_math=False),
     dict(enable_specials=True), dict(enable_macros=True), dict(enable_groups=True),
+    # a delimiter pair moved from one list to the other (the concatenation of the two lists stays the same)
+    dict(latex_inline_math_delimiters=[('$', '$'), ('$$', '$$')], latex_display_math_delimiters=[]),
+    dict(latex_inline_math_delimiters=[], latex_display_math_delimiters=[('$', '$'), ('$$', '$$')]),
+    # forbidden characters changed again / cleared (after the parent has worked with the old set)
+    dict(forbidden_characters='a%'), dict(forbidden_characters=''),
 ]
 
 
@@ -209,6 +214,8 @@ def check_state(root_i, chain, acc, seen_tables, b, seen=None):
     bad = False
     for s in wordlist(W):
         for tol in (True, False):
+            if not tol and len(s) > 1 and s[0] not in '\\@':
+                continue   # strict and tolerant reading differ only where a token is malformed: single characters, escape sequences
             tf = tokens(f, s, tol)
             for which, dd in (('used-parents', d), ('unused-parents', d0)):
                 if dd is None or (which == 'unused-parents' and len(s) > 1):
